@@ -20,13 +20,25 @@ RULE = ("one case = one value x one route (pickle protocol 0..5, copy.copy, copy
         "type and offset-or-key; Time: boundaries x fold x tzinfo; Duration and AbsoluteDuration: EVERY subset of the 8 components (years months weeks days hours minutes seconds "
         "microseconds) with all-positive, all-negative and mixed signs; Interval: forward / inverted / absolute, DateTime endpoints (same zone, two zones, fixed, "
         "naive, ambiguous endpoints with fold 0/1) and Date endpoints; Timezone (every chosen zone) and FixedTimezone objects; the generated MRO / resolution tables "
-        "against the live classes. non-trivial = distinct (value, route).")
+        "against the live classes. HISTORY streams (hist-*; one case = a whole process history, self-contained: [route, calls before the value is built, calls between "
+        "construction and copy, calls after the copy, value]; module-level containers of the pendulum package, the local timezone and the locale are put back to their "
+        "fresh-process state before and after each such case): the per-offset cache of pendulum.timezone(<int>) warmed by each public route that ends in "
+        "pendulum.tz.fixed_timezone (timezone(int), datetime(tz=<hours>), instance(<stdlib fixed offset>), from_format(.. Z)) before / after an explicitly named "
+        "FixedTimezone of the SAME offset is constructed and copied as an object, as tzinfo of a DateTime / Time, at both ends of an Interval; the reverse order (named zone "
+        "copied first, then the default-named one); two names on one offset; calls that RAISED earlier (offset beyond timedelta's range, unknown zone name); earlier copies "
+        "of values that are == to / share a key with the value yet distinguishable (one instant in three zones, fold 0/1, Time aware/naive, Date vs midnight DateTime, "
+        "Duration(years=1,days=1) vs Duration(days=366) vs timedelta, Intervals of one length); named zones after timezone(name) / earlier copies / ZoneInfo of the same key; "
+        "process-wide configuration set earlier (set_local_timezone(named fixed zone / tz-database zone), set_locale). Oracle for these: the copy is judged exactly as without "
+        "a history, every call of the history must return what it returns in a fresh process (default name / offset / exception), and neither the original nor the copy may "
+        "change afterwards. non-trivial = distinct (value, route, history).")
 EXHAUSTIVE = {"quick": False, "thorough": False}
 TRUSTED = ["the pickle / copy / copyreg protocol of CPython and the native reducers of datetime.date / timedelta / tzinfo / zoneinfo.ZoneInfo as stated at the top of "
            "coq/Model/Pickle.v (the model interprets what __reduce_ex__ / __deepcopy__ hand to the protocol; the protocol itself is not modelled further)",
            "tools/vlib/gens/g60_pickle.py reads the class bodies (method resolution, state tuples, keyword lists, constructor parameters) into Gen/Reduce.v; "
            "its native-class table is compared with the live classes on every run (tables stream)",
-           "Spec/Zone.v as the meaning of a Timezone's offset (validated by C02); Model/Duration.v as Duration.__new__ (validated by C09 and again here)"]
+           "Spec/Zone.v as the meaning of a Timezone's offset (validated by C02); Model/Duration.v as Duration.__new__ (validated by C09 and again here)",
+           "Model/PickleHistory.v is a hand model of pendulum.tz.fixed_timezone / pendulum.timezone (the per-offset cache), tied to /repo by the hist-* correspondence only "
+           "(no source pin); histories that set the local timezone or the locale, and hist cases whose value is a Date / Duration / Interval, are oracle-only"]
 ASSUMPTIONS = ["CPython with the C datetime module (timedelta.__reduce__ uses the native fields, not Duration's overriding attributes)",
                "aware DateTime cases stay 3 days away from year 1 / 9999 (utcoffset arithmetic would overflow); naive ones cover the full range",
                "Duration theorems about deepcopy carry C09's float premise float_split_exact_on_D9 (validated on every run by C09's and this check's dur-* streams)"]
@@ -227,9 +239,154 @@ def cases(tier, seed):
         _routes(out, "tz-named", "tz", [name])
     for fz in fixed + [["F", 0, ""], ["F", 7200, "UTC"], ["F", 359999, None], ["F", -360000, None], ["F", 3599, None], ["F", -3661, None]]:
         _routes(out, "tz-fixed", "tz", [fz])
+    # --- copies in a process with a HISTORY (process-wide state: the per-offset cache of pendulum.timezone(<int>), the local timezone, the locale;
+    #     earlier copies of values that are == / share a key with the value).  One case = the whole history + the copy + later probes.
+    rh = random.Random(seed * 104729 + 1414)
+    hist = _hist_cases(rh, thorough, zs, lo, hi)
+    # every case above runs in fresh-process state (impl_run puts the module-level state back before each case), so what one value leaves behind
+    # for the NEXT one is examined here, self-contained: a sample of neighbours of the streams above (same wall time with the other fold, the
+    # same zone, the next component subset, ...), first one copied, then the other, along the same route - in both orders
+    vals = [(c["fn"], c["args"][1:]) for c in out[::8]]
+    for i in sorted(rh.sample(range(1, len(vals)), min(len(vals) - 1, 900 if thorough else 110))):
+        (k1, v1), (k2, v2) = (vals[i - 1], vals[i]) if i % 2 else (vals[i], vals[i - 1])
+        _hist(hist, "hist-adjacent", [["copy", SAME, k1, v1]], [], [], k2, v2)
+    out += hist
     # --- generated tables vs the live classes
     for i in range(len(CLASSES)):
         out.append({"stream": "tables", "fn": "tables", "args": [i]})
+    return out
+
+
+HIST_OFFS = [19800, -10800, 3600, 0, -3661, 86399, -86340, 2700, 1, -59, 20700, 43200]
+HIST_NAMES = ["IST", "ART", "x y", "UTC", "+05:30", "Europe/Paris", "Zo\u00eb", "-03:00", "a"]
+BIG_OFF = 10 ** 14                 # FixedTimezone(BIG_OFF): timedelta(seconds=...) overflows -> the factory call raises
+W_HIST = 63518437800 * T.MEG       # 2013-10-27T02:30:00
+
+
+def _fillers(off):
+    """Public calls that end in pendulum.tz.fixed_timezone(off)."""
+    f = [["tzint", off]]
+    if off % 900 == 0 and abs(off) <= 86400:
+        f.append(["tznum", off])                 # pendulum.datetime(..., tz=<hours as int or float>)
+    if off != 0 and abs(off) < 86400:
+        f.append(["inst", off])                  # pendulum.instance(<datetime with datetime.timezone(off)>)
+    if off % 60 == 0 and abs(off) < 86400:
+        f.append(["fromformat", off])            # pendulum.from_format("... +HH:mm", "... Z")
+    return f
+
+
+SAME = -1        # route of a nested copy: the route of the main copy
+
+
+def _hist(out, stream, pre, mid, post, kind, value, routes=ROUTES):
+    for r in routes:
+        fix = lambda ops: [([o[0], r] + o[2:]) if (o[0] == "copy" and o[1] == SAME) else o for o in ops]      # noqa
+        out.append({"stream": stream, "fn": "hist", "args": [r, fix(pre), fix(mid), fix(post), kind, value]})
+
+
+def _hist_cases(rh, thorough, zs, lo, hi):
+    out = []
+    offs = HIST_OFFS + [rh.randrange(-86399, 86400) for _ in range(20 if thorough else 4)]
+    names = HIST_NAMES
+
+    def wall():
+        return rh.randrange(lo, hi)
+
+    def tod():
+        return rh.randrange(0, 86400000000)
+    # (A) the cache holds the default-named zone of an offset (filled by a factory call) when a zone of the SAME offset with an explicit name
+    #     is copied - as an object, as the tzinfo of a DateTime / Time, at the ends of an Interval; afterwards the factory must still hand out the default name
+    for i, off in enumerate(offs):
+        fl = _fillers(off)
+        nm = names[i % len(names)]
+        for fop in fl:
+            _hist(out, "hist-cache-then-named", [fop], [], [["tzint", off]], "tz", [["F", off, nm]])
+        fop = fl[rh.randrange(len(fl))]
+        _hist(out, "hist-cache-then-named", [fop], [], [["tzint", off]], "dt", [wall(), 0, ["F", off, nm]])
+        _hist(out, "hist-cache-then-named", [fl[rh.randrange(len(fl))]], [], [["tzint", off]], "time", [tod(), 0, ["F", off, nm]])
+        # the value exists already when the factory is called (history between construction and copy)
+        _hist(out, "hist-value-then-cache", [], [fl[rh.randrange(len(fl))]], [["tzint", off]], "tz", [["F", off, names[(i + 3) % len(names)]]])
+        _hist(out, "hist-value-then-cache", [["mk", "tz", [["F", off, "kept"]]]], [fl[rh.randrange(len(fl))]], [["tzint", off]], "dt", [wall(), 0, ["F", off, nm]])
+        if i < (len(offs) if thorough else 5):
+            W1 = wall()
+            W2 = min(max(W1 + rh.randrange(-400 * T.US_DAY, 400 * T.US_DAY), lo + 1), hi - 1)
+            _hist(out, "hist-cache-then-named", [fop], [], [["tzint", off]], "iv", [0, [1, W1, 0, ["F", off, nm]], [1, W2, 0, ["F", off, nm]]])
+    # (B) the reverse order: a named zone is copied FIRST, then the default-named zone of the same offset is copied / handed out by the factory
+    for i, off in enumerate(offs):
+        nm = names[(i + 1) % len(names)]
+        r0 = rh.choice([SAME, rh.randrange(8)])
+        _hist(out, "hist-named-then-default", [["copy", r0, "tz", [["F", off, nm]]]], [], [["tzint", off]], "tz", [["F", off, None]])
+        _hist(out, "hist-named-then-default", [["copy", rh.choice([SAME, rh.randrange(8)]), "dt", [wall(), 0, ["F", off, nm]]]], [], [["tzint", off]], "dt", [wall(), 0, ["F", off, None]])
+        # two explicit names on one offset, one after the other
+        _hist(out, "hist-two-names", [["copy", SAME, "tz", [["F", off, nm]]]], [], [["tzint", off], ["copy", rh.randrange(8), "tz", [["F", off, nm]]]],
+              "tz", [["F", off, names[(i + 2) % len(names)]]])
+    # (C) an earlier copy of a value that is == to (or shares a natural cache key with) the value, but is distinguishable from it
+    for j in range(12 if thorough else 3):
+        name = zs[rh.randrange(len(zs))]
+        U = wall()
+        n = T.native(U, 0, _dt.timezone.utc).astimezone(zoneinfo.ZoneInfo(name))
+        Wz, fz = T.wall_of(n), n.fold
+        off = rh.choice(offs)
+        Wf = U + off * T.MEG
+        r0 = SAME if j % 3 != 2 else rh.randrange(8)
+        # one instant in three zones (==, same hash)
+        _hist(out, "hist-equal-values", [["copy", r0, "dt", [U, 0, "UTC"]]], [], [], "dt", [Wf, 0, ["F", off, "named"]])
+        _hist(out, "hist-equal-values", [["copy", r0, "dt", [Wf, 0, ["F", off, None]]], ["copy", 7, "dt", [U, 0, ["S", 0]]]], [], [], "dt", [Wz, fz, name])
+        _hist(out, "hist-equal-values", [["copy", r0, "dt", [Wz, 0, name]]], [], [], "dt", [U, 0, "UTC"])
+        # same fields and zone, the other fold (== and same hash on an unambiguous wall time)
+        _hist(out, "hist-equal-values", [["copy", r0, "dt", [U, 0, "UTC"]]], [], [], "dt", [U, 1, "UTC"])
+        _hist(out, "hist-equal-values", [["copy", r0, "dt", [U, 0, None]]], [], [], "dt", [U, 1, None])
+        # a Time in two zones of one offset / aware against naive
+        t = tod()
+        _hist(out, "hist-equal-values", [["copy", r0, "time", [t, 0, ["F", 3600, "A"]]]], [], [], "time", [t, 0, ["F", 3600, None]])
+        _hist(out, "hist-equal-values", [["copy", r0, "time", [t, 0, None]]], [], [], "time", [t, 0, "UTC"])
+        # Date against the DateTime at its midnight, two Dates
+        o = rh.randrange(2, 3652059)
+        _hist(out, "hist-equal-values", [["copy", r0, "dt", [(o - 1) * T.US_DAY, 0, None]]], [], [], "date", [o])
+        _hist(out, "hist-equal-values", [["copy", r0, "date", [o]]], [], [], "dt", [(o - 1) * T.US_DAY, 0, None])
+    durs = [({"days": 366}, {"years": 1, "days": 1}), ({"years": 1, "days": 1}, {"days": 366}), ({"days": 30}, {"months": 1}), ({"months": 12}, {"days": 360}),
+            ({"weeks": 1}, {"days": 7}), ({"hours": 24}, {"days": 1}), ({"days": -3, "hours": -5}, {"days": -3, "hours": -5}), ({}, {"years": 0})]
+    for a, b in durs:
+        _hist(out, "hist-equal-values", [["copy", SAME, "dur", [0] + _dur_args(a)]], [], [], "dur", [0] + _dur_args(b))
+        _hist(out, "hist-equal-values", [["copy", rh.randrange(8), "dur", [0] + _dur_args(a)], ["copy", SAME, "td", _ref_td([0] + _dur_args(a))]], [], [], "dur", [0] + _dur_args(b))
+        _hist(out, "hist-equal-values", [["copy", SAME, "dur", [1] + _dur_args(a)]], [], [], "dur", [0] + _dur_args(b))
+    # Intervals of one length (== as timedeltas) with different endpoints / zones / absolute flags, and the Duration of that length
+    for _ in range(8 if thorough else 3):
+        W1 = rh.randrange(lo + 800 * T.US_DAY, hi - 800 * T.US_DAY)
+        L = rh.randrange(1, 300 * T.US_DAY)
+        sh = rh.randrange(1, 300) * T.US_DAY
+        z1 = rh.choice(["UTC", None, ["F", 3600, "A"], ["F", -10800, None]])
+        e = lambda W, z: [1, W, 0, z]      # noqa
+        _hist(out, "hist-equal-values", [["copy", SAME, "iv", [0, e(W1, z1), e(W1 + L, z1)]]], [], [], "iv", [0, e(W1 + sh, z1), e(W1 + sh + L, z1)])
+        _hist(out, "hist-equal-values", [["copy", SAME, "iv", [1, e(W1 + L, z1), e(W1, z1)]]], [], [], "iv", [0, e(W1, z1), e(W1 + L, z1)])
+        _hist(out, "hist-equal-values", [["copy", SAME, "td", [L // T.US_DAY, L // T.MEG % 86400, L % T.MEG]]], [], [], "iv", [0, e(W1, z1), e(W1 + L, z1)])
+        d0 = W1 // T.US_DAY + 1
+        _hist(out, "hist-equal-values", [["copy", SAME, "iv", [0, [0, d0], [0, d0 + 5]]]], [], [], "iv", [0, [0, d0 + 9], [0, d0 + 14]])
+    # (D) a call that RAISED earlier (and half-done work it may have left behind), alone and next to successful ones
+    for i, off in enumerate(offs[: (len(offs) if thorough else 6)]):
+        nm = names[(i + 4) % len(names)]
+        bad = [["tzint", BIG_OFF], ["tzint", -BIG_OFF], ["mkbad", BIG_OFF, nm], ["tznamebad", "Not/AZone"]][i % 4]
+        _hist(out, "hist-failed-call", [bad, ["tzint", off]], [], [["tzint", off], ["tzint", BIG_OFF]], "tz", [["F", off, nm]])
+        _hist(out, "hist-failed-call", [["tzint", off], bad], [bad], [["tzint", off]], "dt", [wall(), 0, ["F", off, nm]])
+        _hist(out, "hist-failed-call", [bad], [], [["tzint", off]], "tz", [["F", off, None]])
+    # named zones: the factory for names, an earlier copy of the same zone, of a ZoneInfo of the same key, UTC in its three guises
+    for name in rh.sample(list(zs), 6 if not thorough else 40):
+        W = wall()
+        _hist(out, "hist-named-zones", [["tzname", name], ["copy", rh.randrange(8), "tz", [name]]], [], [["tzname", name]], "tz", [name])
+        _hist(out, "hist-named-zones", [["copy", rh.randrange(8), "dt", [W, 0, ["Z", name]]]], [["tzname", name]], [], "dt", [W, 0, name])
+    _hist(out, "hist-named-zones", [["tzint", 0], ["tzname", "UTC"], ["copy", 2, "tz", [["F", 0, "UTC"]]]], [], [["tzint", 0], ["tzname", "UTC"]], "tz", ["UTC"])
+    _hist(out, "hist-named-zones", [["tzname", "UTC"], ["copy", 7, "tz", ["UTC"]]], [], [["tzint", 0]], "tz", [["F", 0, "UTC"]])
+    _hist(out, "hist-named-zones", [["tzname", "UTC"], ["tzint", 0]], [], [["tzint", 0]], "dt", [W_HIST, 0, ["F", 0, None]])
+    # (E) process-wide CONFIGURATION set earlier: the local timezone (a named fixed zone, a tz-database zone), the locale
+    confs = [[["setlocal", ["F", 19800, "LOC"]]], [["setlocal", "Europe/Paris"]], [["locale", "fr"]], [["tzint", 19800], ["setlocal", ["F", 19800, "LOC"]], ["locale", "de"]]]
+    vals = [("dt", [W_HIST, 0, None]), ("dt", [W_HIST, 0, ["F", 19800, "IST"]]), ("dt", [W_HIST, 0, "Europe/Paris"]), ("time", [9000000000, 0, None]),
+            ("time", [9000000000, 0, ["F", 19800, None]]), ("tz", [["F", 19800, "IST"]]), ("tz", ["Europe/Paris"]), ("date", [735000]),
+            ("dur", [0] + _dur_args({"days": 3, "hours": 5})), ("iv", [0, [1, W_HIST, 0, None], [1, W_HIST + 5 * T.US_DAY, 0, None]])]
+    for ci, conf in enumerate(confs):
+        for vi, (kind, value) in enumerate(vals):
+            if thorough or (ci + vi) % 2 == 0 or kind in ("tz",):
+                _hist(out, "hist-configuration", conf, [], [["tzint", 19800]], kind, value)
+                _hist(out, "hist-configuration", [], conf, [], kind, value, routes=[2, 6, 7])
     return out
 
 
@@ -393,6 +550,137 @@ def _build(fn, a):
     raise ValueError(fn)
 
 
+def _build_any(kind, value):
+    """(object, core observer, extra observer, want ==) for a value of any kind, incl. a standard-library timedelta (history only)."""
+    if kind == "td":
+        return _dt.timedelta(days=value[0], seconds=value[1], microseconds=value[2]), (lambda x: [x.days, x.seconds, x.microseconds]), (lambda x: [repr(x)]), True
+    return _build(kind, value)
+
+
+def _copy_by(route, v):
+    import copy
+    import pickle
+    if route < 6:
+        return pickle.loads(pickle.dumps(v, route))
+    return copy.copy(v) if route == 6 else copy.deepcopy(v)
+
+
+def _state_snapshot():
+    """Module-level mutable containers of the pendulum package (caches, tables) as they are in a fresh process."""
+    import sys
+    import pendulum
+    snap = []
+    for n, m in sorted(sys.modules.items()):
+        if (n == "pendulum" or n.startswith("pendulum.")) and m is not None:
+            for k, v in sorted(vars(m).items()):
+                if type(v) in (dict, list, set) and not k.startswith("__"):
+                    snap.append((v, type(v)(v)))
+    ltz = sys.modules.get("pendulum.tz.local_timezone")
+    return {"containers": snap, "locale": pendulum.get_locale(), "local": getattr(ltz, "_mock_local_timezone", None)}
+
+
+def _state_restore(st):
+    """Back to the state the process had when impl_run started (a fresh process, or the ambient configuration the runner set up): no case sees
+    what earlier cases left behind in the package's module-level containers / the local timezone / the locale, nor leaves anything behind."""
+    import pendulum
+    for cont, saved in st["containers"]:
+        same_ = len(cont) == len(saved) and (all(a is b for a, b in zip(cont, saved)) if isinstance(cont, list) else
+                                              (all(k in cont and cont[k] is saved[k] for k in saved) if isinstance(cont, dict) else cont == saved))
+        if not same_:
+            cont.clear()
+            (cont.extend if isinstance(cont, list) else cont.update)(saved)
+    pendulum.set_local_timezone(st["local"])
+    if pendulum.get_locale() != st["locale"]:
+        pendulum.set_locale(st["locale"])
+
+
+def _hist_op(op, alive):
+    """One call of a history; canonical output [0, ...] / [1, exception code]."""
+    import pendulum
+    from pendulum.tz.timezone import FixedTimezone
+    k = op[0]
+    try:
+        if k == "tzint":
+            z = pendulum.timezone(op[1])
+        elif k == "tznum":
+            off = op[1]
+            z = pendulum.datetime(2024, 3, 1, 10, 0, 0, tz=(off // 3600 if off % 3600 == 0 else off / 3600)).tzinfo
+        elif k == "inst":
+            z = pendulum.instance(_dt.datetime(2020, 5, 1, 12, tzinfo=_dt.timezone(_dt.timedelta(seconds=op[1])))).tzinfo
+        elif k == "fromformat":
+            off = op[1]
+            q = abs(off) // 60
+            z = pendulum.from_format("2020-01-01 %s%02d:%02d" % ("-" if off < 0 else "+", q // 60, q % 60), "YYYY-MM-DD Z").tzinfo
+        elif k in ("tzname", "tznamebad"):
+            z = pendulum.timezone(op[1])
+        elif k == "mkbad":
+            z = FixedTimezone(op[1], op[2])
+        elif k == "mk":
+            v, core, _extra, _eq = _build_any(op[1], op[2])
+            alive.append(v)
+            return [0] + core(v)
+        elif k == "copy":
+            v, core, _extra, want_eq = _build_any(op[2], op[3])
+            co = core(v)
+            try:
+                w = _copy_by(op[1], v)
+            except Exception as ex:  # noqa
+                return [1, T.EXN.get(type(ex).__name__, 14), co, type(ex).__name__ + ": " + str(ex)[:160]]
+            alive += [v, w]
+            eq = 1 if (not want_eq or (w == v and not (w != v))) else 0
+            return [0, 1 if type(w) is type(v) else 0, eq, co, core(w)]
+        elif k == "setlocal":
+            pendulum.set_local_timezone(_mk_tz(op[1]))
+            return [0]
+        elif k == "locale":
+            pendulum.set_locale(op[1])
+            return [0]
+        else:
+            raise ValueError(k)
+        alive.append(z)
+        return [0] + _tz_obs(z)
+    except Exception as ex:  # noqa
+        return [1, T.EXN.get(type(ex).__name__, 14)]
+
+
+def _hist_run(a, snap):
+    route, pre, mid, post, kind, value = a
+    _state_restore(snap)
+    alive, outs = [], []
+    try:
+        for op in pre:
+            outs.append(_hist_op(op, alive))
+        try:
+            v, core, extra, want_eq = _build(kind, value)
+            co, eo = core(v), extra(v)
+        except Exception as ex:  # noqa
+            return [2, type(ex).__name__, str(ex)[:200]]
+        for op in mid:
+            outs.append(_hist_op(op, alive))
+        try:
+            w = _copy_by(route, v)
+        except Exception as ex:  # noqa
+            res = [1, 0, 0, co, [T.EXN.get(type(ex).__name__, 14)], eo, [type(ex).__name__ + ": " + str(ex)[:160]]]
+            w = None
+        else:
+            try:
+                eq = 1 if (w == v and not (w != v)) else 0
+                res = [0, 1 if type(w) is type(v) else 0, eq if want_eq else 1, co, core(w), eo, extra(w)]
+            except Exception as ex:  # noqa
+                return [3, type(ex).__name__, str(ex)[:200]]
+        for op in post:
+            outs.append(_hist_op(op, alive))
+        # the original once more, after everything: copying (and the later calls) must not have changed it
+        try:
+            again = [core(v), extra(v)]
+            cagain = [core(w), extra(w)] if w is not None else []
+        except Exception as ex:  # noqa
+            return [3, type(ex).__name__, str(ex)[:200]]
+        return res + [outs, [] if again == [co, eo] else again, [] if (w is None or cagain == [res[4], res[6]]) else cagain]
+    finally:
+        _state_restore(snap)
+
+
 def _tables(i):
     import pendulum
     from pendulum.duration import AbsoluteDuration
@@ -408,13 +696,24 @@ def _tables(i):
 def impl_run(cases):
     import copy
     import pickle
+    import pendulum
+    import pendulum.tz
+    import pendulum.parsing     # noqa
+    snap = _state_snapshot()
     out = []
     for c in cases:
         fn, a = c["fn"], c["args"]
+        if fn == "hist":
+            try:
+                out.append(_hist_run(a, snap))
+            except Exception as ex:  # noqa
+                out.append([3, type(ex).__name__, str(ex)[:200]])
+            continue
         try:
             if fn == "tables":
                 out.append([0, _tables(a[0])])
                 continue
+            _state_restore(snap)          # a plain case = the value copied in fresh-process state; histories are the hist-* streams
             r = a[0]
             v, core, extra, want_eq = _build(fn, a[1:])
             co, eo = core(v), extra(v)
@@ -477,10 +776,51 @@ def _ep_enc(e, span):
     return [1, W, f] + _tz_enc(tzs, lo, hi)
 
 
+HIST_KIND = {"dt": 1, "time": 3, "tz": 6}
+FACTORY_OPS = ("tzint", "tznum", "inst", "fromformat")
+W_TZ = 735000 * T.US_DAY
+
+
+def _op_enc(op):
+    k = op[0]
+    if k in FACTORY_OPS:
+        return [1, op[1]]
+    if k == "tzname":
+        return [2, key_index(op[1])]
+    if k == "mk" and op[1] == "tz":
+        return [3] + _tz_enc(op[2][0], W_TZ, W_TZ)
+    if k == "copy" and op[2] == "tz":
+        return [4, op[1]] + _tz_enc(op[3][0], W_TZ, W_TZ)
+    if k in ("copy", "mk", "mkbad", "tznamebad"):
+        return [5]                   # leaves the cache alone; its own output is judged by the oracle only
+    return None                      # process-wide configuration (local timezone, locale): outside the model
+
+
+def _hist_model_call(a):
+    route, pre, mid, post, kind, value = a
+    if kind not in HIST_KIND:
+        return None
+    before = [_op_enc(o) for o in pre + mid]
+    after = [_op_enc(o) for o in post]
+    if any(x is None for x in before + after):
+        return None
+    if kind == "dt":
+        W, f, tzs = value
+        body = [W, f] + _tz_enc(tzs, W, W)
+    elif kind == "time":
+        t, f, tzs = value
+        body = [t, f] + _tz_enc(tzs, W_TZ, W_TZ)
+    else:
+        body = _tz_enc(value[0], W_TZ, W_TZ)
+    return [("hist", [route, HIST_KIND[kind], len(before)] + [x for o in before for x in o] + body + [len(after)] + [x for o in after for x in o])]
+
+
 def model_calls(c, backend):
     fn, a = c["fn"], c["args"]
     if fn == "tables":
         return [("tables", [a[0]])]
+    if fn == "hist":
+        return _hist_model_call(a)
     r, v = a[0], a[1:]
     if fn == "dt":
         W, f, tzs = v
@@ -512,12 +852,45 @@ def model_result(c, backend, outs):
     if c["fn"] == "tables":
         o = outs[0]
         return [0, "".join(chr(x) for x in o[1:])] if o and o[0] == 0 else o
+    if c["fn"] == "hist":
+        o = outs[0]
+        if not o or o[0] != 0:
+            return o
+        segs, i = [], 1
+        while i < len(o):
+            segs.append(o[i + 1:i + 1 + o[i]])
+            i += 1 + o[i]
+        return [0, segs]
     return outs
+
+
+def _hist_same(c, m, r):
+    route, pre, mid, post, kind, value = c["args"]
+    if r[0] not in (0, 1) or m[0] != 0:
+        return False
+    segs = m[1]
+    ops = pre + mid + post
+    nb = len(pre) + len(mid)
+    if len(segs) != len(ops) + 2 or len(r[7]) != len(ops):
+        return False
+    msegs = segs[:nb] + segs[nb + 2:]
+    for op, ms, io in zip(ops, msegs, r[7]):
+        if op[0] in FACTORY_OPS or op[0] == "tzname" or (op[0] == "mk" and op[1] == "tz"):
+            if ms != io:
+                return False
+        elif op[0] == "copy" and op[2] == "tz":
+            if ms != ([0] + io[4] if io[0] == 0 else io[:2]):
+                return False
+    if segs[nb] != r[3]:
+        return False
+    return segs[nb + 1] == ([1] + r[4] if r[0] == 1 else [0] + r[4])
 
 
 def same(c, m, r):
     if c["fn"] == "tables":
         return m == r
+    if c["fn"] == "hist":
+        return _hist_same(c, m, r)
     if r[0] not in (0, 1):
         return False
     mo, mc = m
@@ -561,11 +934,97 @@ def _ref_td(v):
     return [td.days, td.seconds, td.microseconds]
 
 
-def _diffs(c, r):
+def _default_name(off):
+    q = abs(off) // 60
+    return "%s%02d:%02d" % ("-" if off < 0 else "+", q // 60, q % 60)
+
+
+def _ref_tz_obs(spec):
+    """What the constructor arguments say a timezone object shows: kind, key / offset and name."""
+    if spec is None:
+        return [0]
+    if isinstance(spec, str):
+        return [1, key_index(spec)]
+    if spec[0] == "S":
+        return [3, spec[1]]
+    if spec[0] == "Z":
+        return [4, key_index(spec[1])]
+    nm = spec[2] or _default_name(spec[1])
+    return [2, spec[1], len(nm)] + [ord(ch) for ch in nm]
+
+
+def _hist_inner(c):
+    route, pre, mid, post, kind, value = c["args"]
+    return {"stream": c.get("stream"), "fn": kind, "args": [route] + value}
+
+
+def _op_expect(op):
+    """What a call of a history returns in ANY process (stdlib reading of its arguments); None: judged structurally (copies)."""
+    k = op[0]
+    if k in FACTORY_OPS or k == "mkbad":
+        try:
+            _dt.timedelta(seconds=op[1])
+        except OverflowError:
+            return [1, T.EXN["OverflowError"]]
+        return [0] + _ref_tz_obs(["F", op[1], op[2] if k == "mkbad" else None])
+    if k == "tzname":
+        return [0, 1, key_index(op[1])]
+    if k == "tznamebad":
+        return [1, 14]
+    if k == "mk" and op[1] == "tz":
+        return [0] + _ref_tz_obs(op[2][0])
+    if k in ("setlocal", "locale"):
+        return [0]
+    return None
+
+
+def _nested_copy_diffs(op, o, backend):
+    """An earlier copy inside a history is an ordinary case of its own: same judgement, the listed findings of the unchanged tree tolerated."""
+    if op[2] == "td":
+        return [] if (o[0] == 0 and o[1] and o[2] and o[3] == o[4]) else [f"copy of a standard-library timedelta differs: {o}"]
+    inner = {"stream": "hist-nested", "fn": op[2], "args": [op[1]] + op[3]}
+    r7 = [0, o[1], o[2], o[3], o[4], [], []] if o[0] == 0 else [1, 0, 0, o[2], [o[1]], [], [o[3]]]
+    d = _diffs(inner, r7)
+    if d and known(inner, backend, r7) is None:
+        return d
+    return []
+
+
+def _hist_extra_diffs(c, r, backend="py"):
+    """The part of a history case that is not the copy itself: what the earlier / later calls returned, and that nothing observed changed afterwards."""
+    route, pre, mid, post, kind, value = c["args"]
+    why = []
+    ops = pre + mid + post
+    outs = r[7]
+    if len(outs) != len(ops):
+        return [f"history: {len(outs)} outputs for {len(ops)} calls"]
+    for i, (op, o) in enumerate(zip(ops, outs)):
+        where = "before the copy" if i < len(pre) + len(mid) else "after the copy"
+        exp = _op_expect(op)
+        if exp is not None:
+            if o != exp:
+                why.append(f"call {op} {where} returned {o}, in a fresh process it returns {exp}")
+        elif op[0] == "copy":
+            why += [f"copy {op} {where}: " + x for x in _nested_copy_diffs(op, o, backend)]
+        elif op[0] == "mk":
+            if o[0] != 0:
+                why.append(f"construction {op} raised {o}")
+    if r[8]:
+        why.append(f"the ORIGINAL changed after it was copied: first {[r[3], r[5]]} then {r[8]}")
+    if r[9]:
+        why.append(f"the COPY changed after it was made: first {[r[4], r[6]]} then {r[9]}")
+    return why
+
+
+def _diffs(c, r, backend="py"):
     """List of human-readable reasons why the copy is distinguishable from the original (empty = property holds for this case)."""
     fn, a = c["fn"], c["args"]
     if fn == "tables":
         return []
+    if fn == "hist":
+        if r[0] in (2, 3):
+            return [f"harness could not build/observe the value: {r[1:]}"]
+        return _diffs(_hist_inner(c), r[:7]) + _hist_extra_diffs(c, r, backend)
     if r[0] in (2, 3):
         return [f"harness could not build/observe the value: {r[1:]}"]
     why = []
@@ -577,6 +1036,11 @@ def _diffs(c, r):
         ref = _ref_dt_core(a[1], a[2], a[3])
         if co[:11] != ref:
             why.append(f"original DateTime observes {co[:11]}, the stdlib gives {ref} for the same fields/fold/zone")
+    if fn in ("dt", "time", "tz"):
+        tail = co[11:] if fn == "dt" else co[5:] if fn == "time" else co
+        spec = a[3] if fn in ("dt", "time") else a[1]
+        if tail != _ref_tz_obs(spec):
+            why.append(f"original's timezone observes {tail}, its constructor arguments say {_ref_tz_obs(spec)}")
     if fn == "dur":
         if co[11:14] != _ref_td(a[1:]):
             why.append(f"original Duration has native value {co[11:14]}, timedelta gives {_ref_td(a[1:])}")
@@ -606,7 +1070,7 @@ def _diffs(c, r):
 def oracle(c, backend, r):
     if c["fn"] == "tables":
         return None
-    d = _diffs(c, r)
+    d = _diffs(c, r, backend)
     return "; ".join(d)[:900] if d else None
 
 
@@ -621,6 +1085,11 @@ def known(c, backend, r):
     fn, a = c["fn"], c["args"]
     if fn == "tables" or r[0] not in (0, 1):
         return None
+    if fn == "hist":
+        # a listed finding only when the history part is clean: then the copy itself is judged exactly like the same value without a history
+        if _hist_extra_diffs(c, r, backend):
+            return None
+        return known(_hist_inner(c), backend, r[:7])
     route = a[0]
     st, ty, eq, co, cc, eo, ec = r
     if fn == "dt":
@@ -726,10 +1195,16 @@ LEVEL_TEXT = ("Machine-checked Coq theorems over the protocol model (Model/Pickl
               "fold on every route; Duration pickle/copy preserve the native timedelta value always and all components exactly when years=months=0 (REFUTED otherwise), "
               "Duration.__deepcopy__ drops weeks (exact on weeks=0 within C09's float premise; REFUTED for weeks=2,days=3); Interval copy.copy is the identity on every "
               "constructed Interval, pickle is the identity when no endpoint has fold=1 (REFUTED otherwise), copy.deepcopy of an Interval ALWAYS raises TypeError. "
+              "Copies in a process with a history (Model/PickleHistory.v: the per-offset cache behind pendulum.timezone(<int>) as a state machine over earlier / later calls): "
+              "the cache is transparent (after ANY history the factory returns what it returns in a fresh process), a call that raises leaves it unchanged, constructions and "
+              "copies never write it, and original, copy and every call's result are independent of the history - in particular FixedTimezone(off, name) keeps its name on "
+              "every route when the cache already holds the default-named zone of that offset. "
               "The model is tied to /repo by regeneration of the argument lists and by correspondence on real objects over all 8 routes, both backends.")
 DESIGN_REF = "DESIGN.md section 4 C14"
 LEVEL_NOTE = ("Trusted: Coq kernel+VM; CPython's pickle/copy protocol and native reducers as stated in Model/Pickle.v (standard-library tzinfo objects are opaque values "
               "of that protocol: they come back equal; checked on every run by the dt-foreign-* / time-foreign streams); the generator's reading of the class bodies "
               "(fail closed on unknown shapes; MRO/resolution tables compared with the live classes each run); Spec/Zone.v, Model/Duration.v (validated by C02/C09 and here); "
-              "extraction+driver cross-checked with vm_compute.")
+              "extraction+driver cross-checked with vm_compute. History: the fixed-offset cache is INSIDE the model (hist entry of DispatchC14, compared call by call with "
+              "the implementation for tz / DateTime / Time values); set_local_timezone / set_locale histories and Date / Duration / Interval values after a history are "
+              "oracle-only streams (model_calls returns None): process-wide configuration is not part of the protocol model.")
 TECHNIQUE = "Coq proofs over a data-driven protocol model (argument lists generated from the AST) + differential correspondence on real objects through 8 copy routes"
